@@ -26,8 +26,8 @@ from autofit.non_linear.analysis.indexed import IndexedAnalysis, IndexCollection
 from autofit.non_linear.analysis.free_parameter import FreeParameterAnalysis  # noqa: E402
 from autofit.non_linear.analysis.model_analysis import ModelAnalysis, CombinedModelAnalysis  # noqa: E402
 
-WAIT = float(os.environ.get("C15_WAIT", "10"))
-CASE_LIMIT = int(os.environ.get("C15_CASE_LIMIT", "120"))
+WAIT = float(os.environ.get("C15_WAIT", "30"))
+CASE_LIMIT = int(os.environ.get("C15_CASE_LIMIT", "240"))
 
 
 class SteerTimeout(BaseException):
